@@ -211,9 +211,8 @@ def cond(t, pol=True):
                 return [(S.show(x), y[1] if eq else negate_pred(y[1]))]
             if y is not None and y[0] == 'lit' and y[1] == '0' and x is not None and x[0] == 'call' and x[1].endswith('::len') and x[1].startswith(_LIB) and len(x[2]) == 1:
                 return [('is_empty(%s)' % S.show(x[2][0]), eq)]
-        if t[1] == '!=':
-            return [('(%s == %s)' % (S.show(a), S.show(b)), not pol)]
-        return [(S.show(t), pol)]
+        sa, sb = sorted([S.show(a), S.show(b)])  # `a == b` and `b == a` are one test
+        return [('(%s == %s)' % (sa, sb), eq)]
     if k == 'bin' and t[1] in ('<', '<=', '>', '>='):
         op, a, b = t[1], t[2], t[3]
         if op in _FLIP:
@@ -222,7 +221,26 @@ def cond(t, pol=True):
             # a <= b  ==  !(b < a)
             return [('(%s < %s)' % (S.show(b), S.show(a)), not pol)]
         return [('(%s < %s)' % (S.show(a), S.show(b)), pol)]
+    if k == 'bin' and t[1] in ('&&', '||'):
+        # a disjunction (or a failed conjunction): one compound literal in negation normal form
+        return [(bstr(t, pol), True)]
     return [(S.show(t), pol)]
+
+
+def bstr(t, pol=True):
+    """Negation normal form string of a boolean term (negations pushed to canonical atoms)."""
+    if t is not None and t[0] == 'un' and t[1] == '!':
+        return bstr(t[2], not pol)
+    if t is not None and t[0] == 'bin' and t[1] in ('&&', '||'):
+        op = t[1] if pol else ('||' if t[1] == '&&' else '&&')
+        return '(%s %s %s)' % (bstr(t[2], pol), op, bstr(t[3], pol))
+    parts = []
+    for s_, p in cond(t, pol):
+        if isinstance(p, bool):
+            parts.append(s_ if p else '!' + s_)
+        else:
+            parts.append('(%s ~ %s)' % (s_, p))
+    return parts[0] if len(parts) == 1 else '(' + ' && '.join(parts) + ')'
 
 
 def cmp_conds(subj_term, pred_names):
